@@ -110,6 +110,10 @@ structure Recv where
   the only case in which it is looked at), newest first -/
   fedRev : List UInt8 := []
   dev : Dev := .unlimited
+  /-- accept(filePath) only: what the destination file still holds of its previous content after it was opened
+  (`[]` after a truncating open; the device is written from offset 0, so the old bytes beyond what has been written
+  stay on disk) -/
+  old : List UInt8 := []
   blockSize : Nat := 16384
   finishedSignals : Nat := 0
   errorSignals : Nat := 0
@@ -117,6 +121,10 @@ structure Recv where
 
 /-- contents of the receiver's output device -/
 def Recv.acc (r : Recv) : List UInt8 := r.accRev.reverse
+
+/-- accept(filePath): what the destination file on disk holds — the bytes written so far, followed by whatever is left
+of the previous content beyond them -/
+def Recv.disk (r : Recv) : List UInt8 := r.acc ++ r.old.drop r.acc.length
 
 /-- what the running hash has seen -/
 def Recv.fed (r : Recv) : List UInt8 := r.fedRev.reverse
@@ -357,6 +365,30 @@ manager's block size, the receiving job waits in `StartState` holding the announ
 def initDev (dev : Dev) (bsS bsR size : Nat) (hash : Option (List UInt8)) (data : List UInt8) : St :=
   { s := { blockSize := bsS, rest := data },
     r := { maxBlock := bsR, size := size, hash := hash, dev := dev },
+    pending := some { id := 1, sender := 0, sid := 0, kind := .open bsS } }
+
+/-- how `QXmppTransferJob::accept(const QString &filePath)` opens the destination file -/
+inductive OpenMode
+  /-- `QIODevice::WriteOnly` (implies Truncate): previous content is discarded -/
+  | truncate
+  /-- e.g. `QIODevice::ReadWrite`: previous content stays, writing starts at offset 0 -/
+  | keep
+  deriving DecidableEq, Repr
+
+/-- the mode the code uses today (`file->open(QIODevice::WriteOnly)`); tied to the code by the `pathrun` correspondence
+lines, which receive into pre-existing files -/
+def acceptOpenMode : OpenMode := .truncate
+
+/-- what is left of the previous content of the destination file once it has been opened -/
+def openFile (mode : OpenMode) (previous : List UInt8) : List UInt8 :=
+  match mode with
+  | .truncate => []
+  | .keep => previous
+
+/-- accept(filePath) into a path that already holds `previous`: a healthy file opened with `mode` -/
+def initPath (mode : OpenMode) (previous : List UInt8) (bsS bsR size : Nat) (hash : Option (List UInt8)) (data : List UInt8) : St :=
+  { s := { blockSize := bsS, rest := data },
+    r := { maxBlock := bsR, size := size, hash := hash, old := openFile mode previous },
     pending := some { id := 1, sender := 0, sid := 0, kind := .open bsS } }
 
 /-- the same with a receiving device that takes everything (QBuffer, a healthy file) -/
